@@ -1,5 +1,6 @@
 """C14 -- caching functions (DESIGN section 5, C14)."""
 import ast
+import re
 import itertools
 from fractions import Fraction
 
@@ -88,6 +89,43 @@ def _once_and_nodes(run, ci, nd):
     tests = ' ; '.join(norm(i.test) for i in ast.walk(init) if isinstance(i, ast.If)) if init else ''
     from ..inline import resolver
     res_init = resolver(init) if init is not None else None
+    # axis agreement: the nodes of an axis are laid out from the bounds and the resolution of that same axis.  Each local is tagged with the
+    # axis it was unpacked for (space_area = (min0, max0, min1, max1, ...), resolution = (d0, d1, ...)), whatever it is called.
+    if init is not None and len(init.args.args) >= 4:
+        from ..inline import split_unpacking as _split
+        init_s = _split(init)
+        area, reso = init.args.args[2].arg, init.args.args[3].arg
+        tag = {}
+        for st_ in ast.walk(init_s):
+            if isinstance(st_, ast.Assign) and len(st_.targets) == 1 and isinstance(st_.targets[0], ast.Name):
+                v_ = st_.value
+                if isinstance(v_, ast.Subscript) and isinstance(v_.value, ast.Name) and isinstance(v_.slice, ast.Constant) and isinstance(v_.slice.value, int):
+                    if v_.value.id == area:
+                        tag[st_.targets[0].id] = v_.slice.value // 2
+                    elif v_.value.id == reso:
+                        tag[st_.targets[0].id] = v_.slice.value
+                elif isinstance(v_, ast.Name) and v_.id == reso and nd == 1:
+                    tag[st_.targets[0].id] = 0
+        if nd == 1:
+            for st_ in ast.walk(init_s):
+                if isinstance(st_, ast.Assign) and len(st_.targets) == 1 and isinstance(st_.targets[0], ast.Name) and isinstance(st_.value, ast.Subscript) \
+                        and isinstance(st_.value.value, ast.Name) and st_.value.value.id == area:
+                    tag[st_.targets[0].id] = 0
+        for st_ in ast.walk(init_s):
+            if isinstance(st_, ast.Assign) and len(st_.targets) == 1 and re.match(r'^self\.[xyz]_np$', norm(st_.targets[0])) \
+                    and any(isinstance(c_, ast.Call) and dotted(c_.func) in ('linspace', 'np.linspace', 'arange', 'np.arange') for c_ in ast.walk(st_.value)):
+                ax = 'xyz'.index(norm(st_.targets[0])[5])
+                used = {n_.id: tag[n_.id] for n_ in ast.walk(st_.value) if isinstance(n_, ast.Name) and n_.id in tag}
+                run.subject('C14-R5')
+                wrong = sorted(k_ for k_, a_ in used.items() if a_ != ax)
+                if wrong:
+                    run.fail('C14-R5', K + '__init__|axis-mixed:%s' % 'xyz'[ax], ci.mod.relpath, st_.lineno,
+                             "Caching%dD lays out the %s nodes using %s, which belong%s to the %s axis: the node spacing of one axis follows the "
+                             "resolution or extent of another" % (nd, 'xyz'[ax], wrong, 's' if len(wrong) == 1 else '', 'xyz'[used[wrong[0]]]))
+                elif used:
+                    run.ok('C14-R5', 'Caching%dD %s nodes axis' % (nd, 'xyz'[ax]), sorted(used), sample=False)
+                else:
+                    run.undecided('C14-R5', 'Caching%dD %s nodes axis' % (nd, 'xyz'[ax]), 'bounds / resolution of the axis not traced')
     for c in lins:
         run.subject('C14-R5')
         cnt = res_init(c.args[2]) if res_init is not None else c.args[2]
@@ -592,6 +630,8 @@ def _hermite(run, ci, nd, fn, blk, K, path):
 
 _C1, _C2, _C3 = FILES
 MUTANTS = [
+    dict(name='y-nodes-counted-with-the-x-resolution', file='cherab/core/math/caching/caching2d.pyx',
+         find="max(int((maxy - miny) / deltay) + 1, 2)", replace="max(int((maxy - miny) / deltax) + 1, 2)", expect='C14-R5'),
     dict(name='lines-of-nodes-skipped-by-their-ends', file='cherab/core/math/caching/caching3d.pyx',
          find="                    for w in range(i_z-1, i_z+3):\n                        if isnan(self.data_view[u, v, w]):",
          replace="                    if not (isnan(self.data_view[u, v, i_z-1]) or isnan(self.data_view[u, v, i_z+2])):\n                        continue\n                    for w in range(i_z-1, i_z+3):\n                        if isnan(self.data_view[u, v, w]):", expect='C14-R2'),
